@@ -9,7 +9,7 @@ import vx
 
 
 def run_verus_property(prop, tier, units, runner=None, assumptions=(), samples=(), not_decided=(), extra_cov=None,
-                       pre_violations=(), pre_undecided=()):
+                       pre_violations=(), pre_undecided=(), extra_obligations=None):
     """units: list of dict(vspec=path, extra_overlay=str|None, extra_postlude=str|None, prefix='crate::')
     runner: dict(name, deps, extra_files, search_args(seed, budget_ms) -> argv tail, parse(stdout)->dict(found, what, replay_args, tried..),
                  budget_quick_ms, budget_thorough_ms, lock=bool)
@@ -80,6 +80,10 @@ def run_verus_property(prop, tier, units, runner=None, assumptions=(), samples=(
     for (key, obligation, payload, fi) in pre_violations:
         if rep.violation(key, obligation, payload, fi):
             nviol += 1
+    if extra_obligations:
+        cov['obligations'] += extra_obligations[0]
+        cov['discharged'] += extra_obligations[1]
+        cov['checker_cmd'] += ' ; ' + extra_obligations[2]
     cov['replay_runner'] = search
     cov['not_decided'] = list(not_decided)
     cov['undecided'] = rep.undecided
